@@ -195,14 +195,48 @@ func ruleIPScanStarts(r *Run) {
 			}
 		}
 	})
+	var host *ssa.Function // the helper that looks at the character, when Process does not itself
+	var hostCall ssa.Instruction
+	if ch == nil {
+		// the test of the character may sit in a helper that is handed line[i:]
+		for _, c := range callsIn(fn) {
+			h := staticCallee(c)
+			if h == nil || h.Blocks == nil || pkgOfFunc(h) != pkgOfFunc(fn) {
+				continue
+			}
+			for ai, a := range c.Common().Args {
+				sl, ok := a.(*ssa.Slice)
+				if !ok || sl.X != ssa.Value(line) || sl.Low == nil || sl.High != nil || ai >= len(h.Params) {
+					continue
+				}
+				prm := h.Params[ai]
+				allInstrs(h, func(in ssa.Instruction) {
+					switch x := in.(type) {
+					case *ssa.Lookup:
+						if k, ok := constInt(x.Index); ok && k == 0 && x.X == ssa.Value(prm) && !x.CommaOk {
+							ch, chVal, chIndex, host, hostCall = x, x, sl.Low, h, c
+						}
+					case *ssa.Index:
+						if k, ok := constInt(x.Index); ok && k == 0 && x.X == ssa.Value(prm) {
+							ch, chVal, chIndex, host, hostCall = x, x, sl.Low, h, c
+						}
+					}
+				})
+			}
+		}
+	}
 	if ch == nil {
 		o.Undecide(r.pos(fn.Pos()), "the character under the scan position (line[i]) was not found")
 		return
 	}
+	loopAt := ch.Block()
+	if hostCall != nil {
+		loopAt = hostCall.Block()
+	}
 	header := (*ssa.BasicBlock)(nil)
 	for _, b := range fn.Blocks {
 		for _, sc := range b.Succs {
-			if sc.Dominates(b) && naturalLoop(sc)[ch.Block()] {
+			if sc.Dominates(b) && naturalLoop(sc)[loopAt] {
 				header = sc
 			}
 		}
@@ -213,7 +247,7 @@ func ruleIPScanStarts(r *Run) {
 	}
 	isCapture := func(c *feCall) bool {
 		callee := staticCallee(c.Call)
-		if callee == nil || callee.Blocks == nil || callee.Pkg != fn.Pkg {
+		if callee == nil || callee.Blocks == nil || callee.Pkg != fn.Pkg || callee == host {
 			return false
 		}
 		for _, a := range c.Args {
@@ -226,11 +260,14 @@ func ruleIPScanStarts(r *Run) {
 	var miss []string
 	for _, c := range []rune{'0', '7', '9', 'a', 'f', 'A', 'F', ':'} {
 		w := &feWalker{Fn: fn, Assume: map[ssa.Value]constant.Value{chVal: constant.MakeInt64(int64(c))}, MaxPath: 5000}
+		if host != nil {
+			w.Inline = func(callee *ssa.Function, depth int) bool { return callee == host && depth <= 1 }
+		}
 		var pre *ssa.BasicBlock
-		for _, pb := range ch.Block().Preds {
+		for _, pb := range loopAt.Preds {
 			pre = pb
 		}
-		ends := w.RunFrom(ch.Block(), pre)
+		ends := w.RunFrom(loopAt, pre)
 		attempted := false
 		for _, e := range ends {
 			for i := range e.State.calls {
